@@ -9,16 +9,19 @@ import BpProofs.ChanTerm
     (program counter `x.code`, suspension state `x.wait`): the start of the method the task's program is about to call
     (`receive` / `__anext__` — `fl t` says which —, `send`, `send_from`, `close`, `_flush_queue`), or the `await` node
     inside that method at which it is suspended / the loop head of `send_from` / `_flush_queue` it has reached.
-  * `exec1` / `exec0` / `throwIn` — a run of the coroutine: synchronous commands, at most one `await` attempted
-    (`exec0`: none; the model gives `_flush_queue` up to its loop head a step of its own — the only place where the
-    model's steps and the source's awaits do not line up, see `srcExec`), resp. CancelledError thrown in at the await.
+  * `exec1` / `throwIn` — ONE SEGMENT STEP of the coroutine: synchronous commands; if an `await` is reached it is
+    attempted; if it completes, the synchronous commands that follow — up to the next loop head (`Co.iter`), `await`, or
+    the end of the method; resp. CancelledError thrown in at the await.  `exec2` = two such steps: a task that ENTERS
+    `send_from` checks `_closed` and puts its first item in one atomic action of the model — the only place where the
+    model's steps and the source's segments do not line up one to one (see `srcExec`).
   * `commit` — what the task's PROGRAM (the loops of harness/chanloop.py: `_sender`, `_receiver`, `_closer`) does with
     the method's result, and the new model record.
   * `micro_eq_srcMicro` (A): for every state and every task whose record is coherent (`Coh`: only a receiver is inside
     `get()`, only a sender / flusher with something left to put is inside `put()` — invariants of the reachable
     states), `micro s t = srcMicro fl s t`, for EVERY assignment `fl` of `receive` / `__anext__` to the receivers.
-  * `frame_consistent` (B): the `Co` at which that run stopped is the `frame` of the task's new record.
-  A and B together are the step of a (non-stuttering, up to the one `exec0` above) simulation.
+  * `stop_ok` / `stop_frame` (B): the `Co` at which that run stopped is the `frame` of the record `commit` wrote.
+  A and B together are the step of a simulation (stuttering only at the entry of `send_from`: `exec2`);
+  `run_eq`: hence `run = srcRun` from every state that satisfies the invariant, in particular `init`.
 -/
 set_option linter.unusedSimpArgs false
 namespace Bp.SrcTieChan
@@ -712,5 +715,272 @@ theorem micro_eq_srcMicro (fl : Nat → Flavour) (s : Sys) (t : Nat)
     | done => simp [micro, srcMicro, hx, hw, srcExec, asyncioOnly]
     | blocked g f => exact blocked_eq fl s t x g f hx (hcoh x hx) hw
     | ready => exact ready_eq fl s t x hx hw
+
+/-! ### B: where the run stopped is the frame of the new record -/
+
+/-- the `Co` at which the run `r` of the coroutine of `t` (record `x`, state `s` before) stopped is the `frame` of
+    the record `commit` writes: `frameBlocked` of the new program counter when it suspended, `frameReady` when it
+    stopped at a loop head -/
+def StopOk (fl : Nat → Flavour) (s : Sys) (t : Nat) (x : Task) (r : Sys × Stop) : Prop :=
+  match r.2 with
+  | .suspended _ c => c = frameBlocked fl t (inPut x.code)
+  | .atHead c => c = frameReady fl t (nextCode s x.code)
+  | _ => True
+
+theorem exec1_put_stop (t : Nat) (s : Sys) (it : Item) (k : Co) (h : Exc → Co) :
+    (exec1 t s (.awaitPut it k h)).2 =
+      if s.full = true then .suspended false (.awaitPut it k h) else (stopOf (runSync (putNowait s it) k)).2 := by
+  simp only [exec1, unIter, runSync, tryPut]
+  by_cases hf : s.full = true
+  · simp only [hf, if_true]
+  · simp only [hf, if_false, Bool.false_eq_true]
+
+theorem stopOk_put (fl : Nat → Flavour) (s : Sys) (t : Nat) (x : Task) (hp : canPut x.code = true) :
+    StopOk fl s t x (exec1 t s (frameBlocked fl t x.code)) := by
+  unfold StopOk
+  cases hc : x.code with
+  | sender m nx r cl =>
+    cases r with
+    | zero => simp [canPut, hc] at hp
+    | succ r =>
+      cases m <;> simp only [frameBlocked, exec1_put_stop] <;> by_cases hf : s.full = true <;>
+        simp only [hf, if_true, if_false, Bool.false_eq_true, inPut, SMode.running, frameBlocked,
+          run_for1, stop_for1, nextCode, frameReady]
+      simp only [runSync, stopOf]
+  | flusher o =>
+    cases o with
+    | none => simp [canPut, hc] at hp
+    | some r =>
+      cases r with
+      | zero => simp [canPut, hc] at hp
+      | succ r =>
+        simp only [frameBlocked, exec1_put_stop]
+        by_cases hf : s.full = true <;>
+          simp only [hf, if_true, if_false, Bool.false_eq_true, inPut, frameBlocked, run_flush_for1, stop_flush_for1,
+            nextCode, frameReady]
+  | _ => simp [canPut, hc] at hp
+
+theorem getK_stop (f : Flavour) (S : Sys) (it : Item) :
+    (∃ v, (stopOf (runSync S (getK f it))).2 = .returned v) ∨ (∃ e, (stopOf (runSync S (getK f it))).2 = .raised e) := by
+  cases f <;> cases it <;> by_cases hu : S.unfinished = 0 <;>
+    simp [getK, runSync, stopOf, recvFin, isFlush, hu]
+
+theorem stopOk_get (fl : Nat → Flavour) (s s' : Sys) (t : Nat) (x : Task) (tm : Bool) (hc : x.code = .receiver tm) :
+    StopOk fl s t x (exec1 t s' (atGet (fl t))) := by
+  unfold StopOk
+  simp only [exec1, atGet, unIter, runSync, tryGet]
+  cases hq : s'.queue with
+  | nil => simp only [hc, inPut, frameBlocked, atGet]
+  | cons it rest =>
+    simp only []
+    rcases getK_stop (fl t) (popQ s' rest) it with ⟨v, h⟩ | ⟨e, h⟩ <;> rw [h] <;> trivial
+
+theorem stopOk_throw (fl : Nat → Flavour) (s : Sys) (t : Nat) (x : Task) (g : Bool) (f' : Fut) (hC : Coh x)
+    (hw : x.wait.inGet = true ∨ x.wait.inPut = true) :
+    StopOk fl s t x (throwIn t s g f' (frameBlocked fl t x.code)) := by
+  unfold StopOk
+  rcases hw with hw | hw
+  · obtain ⟨tm, hc⟩ := receiver_of (hC.1 hw)
+    simp only [hc, frameBlocked, atGet, throwIn, getH, recvFin, runSync, stopOf]
+  · obtain ⟨it, k, hk⟩ := frameBlocked_put fl t (hC.2 hw)
+    simp only [hk, throwIn, runSync, stopOf]
+
+theorem exec1_recv (f : Flavour) (t : Nat) (s : Sys) :
+    exec1 t s (recvCo f) =
+      if (s.closed && decide (s.queue.length ≤ s.waiting)) = true then (s, .raised (doneExc f))
+      else exec1 t { s with waiting := s.waiting + 1 } (atGet f) := by
+  have hun : unIter (recvCo f) = recvCo f := by cases f <;> rfl
+  by_cases hd : (s.closed && decide (s.queue.length ≤ s.waiting)) = true
+  · rw [if_pos hd, exec1_raise t s _ s (doneExc f) (by rw [hun, run_recv, if_pos hd])]
+  · rw [if_neg hd, exec1, hun, run_recv, if_neg hd]
+    simp only [exec1, atGet, unIter, runSync]
+
+theorem stopOk_tail (fl : Nat → Flavour) (s : Sys) (t : Nat) (x : Task) (cl : Bool) (v : Val) :
+    StopOk fl s t x (exec1 t s (if cl = true then SrcChan.close (fun _ => .ret v) else .ret v)) := by
+  unfold StopOk
+  cases cl
+  · simp only [Bool.false_eq_true, if_false, exec1, unIter, runSync, stopOf]
+  · have hu : unIter (SrcChan.close fun _ => Co.ret v) = SrcChan.close fun _ => Co.ret v := rfl
+    simp only [if_true]
+    rw [exec1_sync t s _ (doClose s) v (by rw [hu, run_close]; rfl)]
+    trivial
+
+/-- **B**: the `Co` at which the run of the step stopped is the frame of the task's new record -/
+theorem stop_ok (fl : Nat → Flavour) (s : Sys) (t : Nat) (x : Task) (r : Sys × Stop) (hC : Coh x)
+    (h : srcExec fl s t x = some r) : StopOk fl s t x r := by
+  cases hw : x.wait with
+  | done => simp [srcExec, hw] at h
+  | blocked g f =>
+    have hfr : frame fl t x = frameBlocked fl t x.code := by simp only [frame, hw]
+    have hin : x.wait.inGet = true ∨ x.wait.inPut = true := by rw [hw]; cases g <;> simp [Wait.inGet, Wait.inPut]
+    cases f with
+    | pending => simp [srcExec, hw] at h
+    | cancelled =>
+      simp only [srcExec, hw, Option.some.injEq] at h
+      subst h; rw [hfr]; exact stopOk_throw fl s t x g _ hC hin
+    | woken =>
+      by_cases hm : x.mustCancel = true
+      · simp only [srcExec, hw, hm, if_true, Option.some.injEq] at h
+        subst h; rw [hfr]; exact stopOk_throw fl s t x g _ hC hin
+      · simp only [srcExec, hw, hm, if_false, Bool.false_eq_true, Option.some.injEq] at h
+        subst h; rw [hfr]
+        cases g with
+        | true =>
+          obtain ⟨tm, hc⟩ := receiver_of (hC.1 (by simp [hw, Wait.inGet]))
+          have : frameBlocked fl t x.code = atGet (fl t) := by simp only [hc, frameBlocked]
+          rw [this]; exact stopOk_get fl s s t x tm hc
+        | false => exact stopOk_put fl s t x (hC.2 (by simp [hw, Wait.inPut]))
+  | ready =>
+    obtain ⟨code, wait, mc, cr, tout, out⟩ := x
+    simp only at hw
+    subst hw
+    cases mc with
+    | true => simp [srcExec] at h
+    | false =>
+      cases code with
+      | canceller tg => simp [srcExec] at h
+      | closer =>
+        simp only [srcExec, frame, frameReady, Bool.false_eq_true, if_false, Option.some.injEq] at h
+        subst h
+        exact stopOk_tail fl s t _ true .none
+      | receiver tm =>
+        simp only [srcExec, frame, frameReady, Bool.false_eq_true, if_false, Option.some.injEq] at h
+        subst h
+        rw [exec1_recv]
+        split
+        · trivial
+        · exact stopOk_get fl s _ t _ tm rfl
+      | flusher o =>
+        cases o with
+        | none =>
+          simp only [srcExec, frame, frameReady, Bool.false_eq_true, if_false, Option.some.injEq] at h
+          subst h
+          have hu : unIter SrcChan._flush_queue = SrcChan._flush_queue := rfl
+          by_cases hf : s.flushed = true
+          · rw [exec1_sync t s _ s .none (by rw [hu, run_flush, if_pos hf])]
+            trivial
+          · rw [exec1_flush_head t s _ _ _ _ (by rw [hu, run_flush, if_neg hf])]
+            rfl
+        | some r =>
+          cases r with
+          | zero =>
+            simp only [srcExec, frame, frameReady, Bool.false_eq_true, if_false, Option.some.injEq] at h
+            subst h
+            rw [exec1_sync t s _ s .none (by simp only [SrcChan._flush_queue_for1, unIter, runSync])]
+            trivial
+          | succ r =>
+            simp only [srcExec, frame, frameReady, Bool.false_eq_true, if_false, Option.some.injEq,
+              SrcChan._flush_queue_for1] at h
+            subst h
+            rw [exec1_iter_put]
+            exact stopOk_put fl s t ⟨.flusher (some (r + 1)), .ready, false, cr, tout, out⟩ rfl
+      | sender m nx r cl =>
+        cases m with
+        | each =>
+          cases r with
+          | zero =>
+            simp only [srcExec, frame, frameReady, Bool.false_eq_true, if_false, Option.some.injEq] at h
+            subst h
+            exact stopOk_tail fl s t _ cl .none
+          | succ r =>
+            simp only [srcExec, frame, frameReady, Bool.false_eq_true, if_false, Option.some.injEq] at h
+            subst h
+            have hu : unIter (SrcChan.send (.data t nx)) = SrcChan.send (.data t nx) := rfl
+            by_cases hcl : s.closed = true
+            · rw [exec1_raise t s _ s .channelClosed (by rw [hu, run_send, if_pos hcl])]
+              trivial
+            · rw [exec1_put t s s _ _ _ _ (by rw [hu, run_send, if_neg hcl])]
+              exact stopOk_put fl s t ⟨.sender .each nx (r + 1) cl, .ready, false, cr, tout, out⟩ rfl
+        | fromStart =>
+          simp only [srcExec, frame, frameReady, Bool.false_eq_true, if_false, Option.some.injEq] at h
+          subst h
+          have hu : unIter (SrcChan.send_from (items t nx r) cl) = SrcChan.send_from (items t nx r) cl := rfl
+          by_cases hcl : s.closed = true
+          · simp only [exec2, exec1_raise t s _ s .channelClosed (by rw [hu, run_send_from, if_pos hcl])]
+            trivial
+          · simp only [exec2, exec1_from_head t s s _ _ _ (by rw [hu, run_send_from, if_neg hcl])]
+            cases r with
+            | zero =>
+              simp only [items, SrcChan.send_from_for1]
+              rw [exec1_iter_tail]
+              exact stopOk_tail fl s t _ cl .self
+            | succ r =>
+              simp only [items, SrcChan.send_from_for1]
+              rw [exec1_iter_put]
+              exact stopOk_put fl s t ⟨.sender .fromStart nx (r + 1) cl, .ready, false, cr, tout, out⟩ rfl
+        | fromRunning =>
+          simp only [srcExec, frame, frameReady, Bool.false_eq_true, if_false, Option.some.injEq] at h
+          subst h
+          cases r with
+          | zero =>
+            simp only [items, SrcChan.send_from_for1]
+            rw [exec1_iter_tail]
+            exact stopOk_tail fl s t _ cl .self
+          | succ r =>
+            simp only [items, SrcChan.send_from_for1]
+            rw [exec1_iter_put]
+            exact stopOk_put fl s t ⟨.sender .fromRunning nx (r + 1) cl, .ready, false, cr, tout, out⟩ rfl
+
+/-- **B**, in terms of `frame`: the records are the ones `commit` writes -/
+theorem stop_frame (fl : Nat → Flavour) (s : Sys) (t : Nat) (x : Task) (r : Sys × Stop) (hC : Coh x)
+    (h : srcExec fl s t x = some r) :
+    match r.2 with
+    | .suspended g c => c = frame fl t { x with wait := .blocked g .pending, code := inPut x.code }
+    | .atHead c => c = frame fl t { x with wait := .ready, code := nextCode s x.code }
+    | _ => True := by
+  have := stop_ok fl s t x r hC h
+  unfold StopOk at this
+  cases hr : r.2 <;> simp only [hr] at this <;> simp only [frame] <;> exact this
+
+/-! ### whole scheduler steps and runs -/
+
+/-- `runTask` with the translated source -/
+def srcRunTask (fl : Nat → Flavour) : Nat → Sys → Nat → Sys
+  | 0, s, _ => s
+  | fuel + 1, s, t =>
+    let s' := srcMicro fl s t
+    if waitOf s' t = some .ready then srcRunTask fl fuel s' t else s'
+
+/-- `step` with the translated source: the chosen handle runs the coroutine until it is suspended or finished -/
+def srcStep (fl : Nat → Flavour) (s : Sys) (c : Choice) : Sys :=
+  if enabled s c then
+    match c with
+    | .run t => srcRunTask fl (fuelFor s t) s t
+    | .fire t => cancelTask s t true
+  else s
+
+def srcRun (fl : Nat → Flavour) (s : Sys) (cs : List Choice) : Sys := cs.foldl (srcStep fl) s
+
+theorem coh_of_tinv {s : Sys} (h : TInv s) {t : Nat} {x : Task} (hx : s.tasks[t]? = some x) : Coh x :=
+  ⟨h.inv.st.getRecv t x hx, h.put t x hx⟩
+
+theorem micro_eq_of_tinv (fl : Nat → Flavour) {s : Sys} (h : TInv s) (t : Nat) : micro s t = srcMicro fl s t :=
+  micro_eq_srcMicro fl s t (fun _ hx => coh_of_tinv h hx)
+
+theorem runTask_eq (fl : Nat → Flavour) (fuel : Nat) {s : Sys} (h : TInv s) (t : Nat) :
+    runTask fuel s t = srcRunTask fl fuel s t := by
+  induction fuel generalizing s with
+  | zero => rfl
+  | succ n ih =>
+    simp only [runTask, srcRunTask, ← micro_eq_of_tinv fl h t]
+    split
+    · exact ih (micro_tinv h t)
+    · rfl
+
+theorem step_eq (fl : Nat → Flavour) {s : Sys} (h : TInv s) (c : Choice) : step s c = srcStep fl s c := by
+  unfold step srcStep
+  split
+  · cases c with
+    | run t => exact runTask_eq fl _ h t
+    | fire t => rfl
+  · rfl
+
+theorem run_eq (fl : Nat → Flavour) {s : Sys} (h : TInv s) (cs : List Choice) : run s cs = srcRun fl s cs := by
+  induction cs generalizing s with
+  | nil => rfl
+  | cons c cs ih =>
+    show run (step s c) cs = srcRun fl (srcStep fl s c) cs
+    rw [← step_eq fl h c]
+    exact ih (step_tinv h c)
 
 end Bp.SrcTieChan
